@@ -7,7 +7,8 @@ import TapkeeVerif.Model.Project
     mean = 0; for each sample: mean += x; mean /= N
     C = 0;    for each sample: C.selfadjointView<Upper>().rankUpdate(x, 1.0);      -- upper triangle only
     C /= N;   C.selfadjointView<Upper>().rankUpdate(mean, -1.0);                   -- upper triangle only
-    return C                                                                       -- strictly lower part still 0
+    C.triangularView<StrictlyLower>() = C.transpose();                             -- mirror (fix F-PCA-TRI, 8822822)
+    return C
 
 `X : Mat N D K`, row `i` = feature vector of sample `i`.
 -/
@@ -18,10 +19,16 @@ variable [Add K] [Sub K] [Mul K] [Div K] [Zero K] [NatCast K]
 
 def computeMean (X : Mat N D K) : Vec D K := fun a => sumFin N (fun i => X i a) / (N : K)
 
-/-- exactly what `compute_covariance_matrix(begin, end, mean, …)` returns: the upper triangle holds
-    `E[x xᵀ] − mean·meanᵀ`, the strictly lower triangle is left at zero -/
+/-- the state of `covariance_matrix` after the two `rankUpdate`s: the upper triangle holds
+    `E[x xᵀ] − mean·meanᵀ`, the strictly lower triangle is still zero -/
 def covarianceUpper (X : Mat N D K) (μ : Vec D K) : Mat D D K :=
   fun a b => if a ≤ b then sumFin N (fun i => X i a * X i b) / (N : K) - μ a * μ b else 0
+
+/-- `M.triangularView<StrictlyLower>() = M.transpose()` : entry `(a,b)` with `b < a` is overwritten by `M b a` -/
+def mirrorLower (A : Mat n n K) : Mat n n K := fun a b => if b < a then A b a else A a b
+
+/-- exactly what `compute_covariance_matrix(begin, end, mean, …)` returns -/
+def covarianceMatrix (X : Mat N D K) (μ : Vec D K) : Mat D D K := mirrorLower (covarianceUpper X μ)
 
 /-- `dense_wm += dense_wm.transpose(); dense_wm /= 2.0` in `eigendecomposition_impl_dense` -/
 def denseSym (A : Mat n n K) : Mat n n K := fun i j => (A i j + A j i) / ((2 : Nat) : K)
@@ -37,11 +44,16 @@ def cov (X : Mat N D K) : Mat D D K :=
 def centred (X : Mat N D K) : Mat N D K := fun i a => X i a - computeMean X a
 
 /-- what PCA hands to the eigensolver -/
-def pcaPre (X : Mat N D K) : Mat D D K := covarianceUpper X (computeMean X)
+def pcaPre (X : Mat N D K) : Mat D D K := covarianceMatrix X (computeMean X)
 
 /-! staged versions for the drivers -/
-def covarianceUpperD (X : DMat N D K) (μ : DVec D K) : DMat D D K :=
-  DMat.ofFn (covarianceUpper X.get μ.get)
+def covarianceMatrixD (X : DMat N D K) (μ : DVec D K) : DMat D D K :=
+  let U := DMat.ofFn (covarianceUpper X.get μ.get)
+  DMat.ofFn (mirrorLower U.get)
+
+theorem covarianceMatrixD_eq (X : DMat N D K) (μ : DVec D K) :
+    (covarianceMatrixD X μ).get = covarianceMatrix X.get μ.get := by
+  simp only [covarianceMatrixD, covarianceMatrix, DMat.get_ofFn]
 
 def covD (X : DMat N D K) : DMat D D K :=
   let μ := DVec.ofFn (computeMean X.get)
